@@ -39,7 +39,14 @@ fn gen_set(rng: &mut Rng) -> (Vec<Universal2DBox>, &'static str) {
         }
         "rotated" => {
             for _ in 0..n {
-                let ang = if rng.chance(0.8) { Some(rng.uniform(0.0, 6.3) as f32) } else { None };
+                let ang = if rng.chance(0.2) {
+                    // whole numbers of quarter turns in either direction, exactly or within a few 1e-6 rad
+                    Some((rng.range(-6, 6) as f64 * std::f64::consts::FRAC_PI_2 + if rng.chance(0.5) { 0.0 } else { rng.uniform(-8e-6, 8e-6) }) as f32)
+                } else if rng.chance(0.8) {
+                    Some(rng.uniform(-6.3, 6.3) as f32)
+                } else {
+                    None
+                };
                 v.push(Universal2DBox::new(rng.uniform(0.0, 60.0) as f32, rng.uniform(0.0, 60.0) as f32, ang, rng.uniform(0.3, 3.0) as f32, rng.uniform(3.0, 40.0) as f32));
             }
         }
@@ -142,7 +149,7 @@ fn run(boxes: &[Universal2DBox]) -> Result<Vec<f32>, (String, String)> {
 fn main() {
     let cli = Cli::parse();
     let mut rep = Report::new("C15", &cli);
-    rep.note("rule", json!("case = set of 1..8 boxes from families integer-grid (exact unit-cell counting reference), axis-aligned, rotated (f64 inclusion-exclusion over convex intersections; a stratified point sample cross-checks the reference on every 50th case) and near-degenerate (identical boxes, shared edges, right-angle rotations, few-ulp perturbations). Checked per box: |share - reference| <= 1e-4 + EPS/area, share in [0,1], independence of the input order (one random permutation), and that the call completes (panics are caught; a panic below exclusively_owned_areas is a violation unless it matches the known finding exactly). Non-trivial: some box has a share strictly between 0.02 and 0.98; distinct by parameter bits."));
+    rep.note("rule", json!("case = set of 1..8 boxes from families integer-grid (exact unit-cell counting reference), axis-aligned, rotated (f64 inclusion-exclusion over convex intersections; a stratified point sample cross-checks the reference on every 50th case) and near-degenerate (identical boxes, shared edges, right-angle rotations, few-ulp perturbations). Checked per box: |share - reference| <= 1e-4 + EPS/area, share in [0,1], independence of the input order (one random permutation), and that the call completes (panics are caught; a panic below exclusively_owned_areas is a violation unless it matches the known finding exactly). A tracker section drives VisualSort / BatchVisualSort (multi-scene batches) with an own-area threshold enabled and requires the share recorded with every touched track's newest observation to equal the share of that detection among its own scene's detections of that call. Non-trivial: some box has a share strictly between 0.02 and 0.98; distinct by parameter bits."));
     rep.note("assumptions", json!(["library divides by area+EPS by design, hence the EPS/area term", "known finding C15/panic/geo-0.27-boolops/near-coincident-edges is keyed on panic location inside geo-0.27.0/src/algorithm AND the input predicate 'two boxes with an edge pair: direction difference < 0.03 rad, line distance < 5% of the smaller side, overlapping extent'"]));
     std::panic::set_hook(Box::new(|info| {
         let loc = info.location().map(|l| format!("{}:{}", l.file(), l.line())).unwrap_or_default();
@@ -272,6 +279,58 @@ fn main() {
         }
         if rep.want_sample() && nontrivial && boxes.len() <= 4 && boxes.len() >= 3 {
             rep.sample(json!({"case": case(), "shares": shares, "reference": refs}));
+        }
+    }
+    // ---- the trackers hand exactly this computation's result to each detection (VisualSort / BatchVisualSort with an
+    // own-area threshold enabled): the share recorded with the newest observation of every touched track must equal the
+    // share of that detection among the detections of ITS scene in THIS call
+    {
+        use vh::posref::own_shares;
+        use vh::trk::*;
+        let nh = cli.cases(48, 1200);
+        for k in cli.index_range(nh) {
+            if k >> 40 != 0 {
+                continue;
+            }
+            let idx = (3u64 << 40) | k;
+            let mut rng = Rng::for_case(cli.seed, cli.shard, idx);
+            let kind = if k % 2 == 0 { Kind::Visual } else { Kind::BatchVisual };
+            let mut cfg = gen_cfg(&mut rng, kind);
+            cfg.vis.own_use = *rng.pick(&[0.0f32, 0.3, 0.6]);
+            cfg.vis.own_collect = if cfg.vis.own_use == 0.0 { *rng.pick(&[0.3f32, 0.6]) } else { *rng.pick(&[0.0f32, 0.3]) };
+            let w = WorldOpts { scenes: 1 + rng.usize(3), same_region: rng.chance(0.5), preset: *rng.pick(&["crowd", "convoy", "crossing", "random"]), rotated: rng.chance(0.3), features: true, feat_dim: 3,
+                duplicates: false, nobj: 2 + rng.usize(5), steps: 30, low_quality: false, avoid_coincident: true, low_conf: false };
+            let h = HistOpts { len: 10 + rng.usize(15), lifecycle_ops: false, clear_wasted: false, auto_waste_ops: false, batches: kind.is_batch(), empty_calls: false };
+            let ops = gen_history(&mut rng, &w, &h);
+            let mut trk = AnyTracker::new(&cfg);
+            rep.eval();
+            'hist: for op in &ops {
+                let calls: Vec<(u64, Vec<Det>)> = match op {
+                    Op::Predict { scene, dets } => vec![(*scene, dets.clone())],
+                    Op::Batch(b) => b.clone(),
+                    _ => continue,
+                };
+                let results: Vec<(u64, Vec<Rec>)> = if kind.is_batch() { trk.predict_batch(&calls) } else { calls.iter().map(|(s, d)| (*s, trk.predict(*s, d))).collect() };
+                let live: std::collections::HashMap<u64, LiveTrack> = trk.live().into_iter().map(|t| (t.id, t)).collect();
+                for (scene, recs) in &results {
+                    let dets = &calls.iter().find(|c| c.0 == *scene).unwrap().1;
+                    if dets.is_empty() {
+                        continue;
+                    }
+                    let expect = own_shares(dets);
+                    for (i, r) in recs.iter().enumerate() {
+                        rep.count("tracker_recorded_shares_checked");
+                        match live.get(&r.id).and_then(|t| t.own_share) {
+                            Some(s) if (s - expect[i]).abs() <= 1e-6 => {}
+                            other => {
+                                rep.violation(&format!("C15/tracker/{:?}/recorded-share-differs", kind), idx, json!({"scene": scene, "det": i, "recorded": other, "share_among_the_scene's_detections": expect[i], "cfg": cfg.js(),
+                                    "dets": dets.iter().map(|d| d.b.js()).collect::<Vec<_>>(), "scenes_in_call": calls.iter().map(|c| c.0).collect::<Vec<_>>()}));
+                                break 'hist;
+                            }
+                        }
+                    }
+                }
+            }
         }
     }
     rep.finish();
